@@ -1,13 +1,14 @@
 """Contracts for polyply/src/build_file_parser.py (C18, C07): which residues a build-file directive reaches."""
 import z3
-from pyvc.types import (TInt, TReal, TBool, TStr, TNode, TObj, TTuple, TVec, TList, TDict, TRec, TOpt, TConst, key_term, slist_get)
+from pyvc.types import (TInt, TReal, TBool, TStr, TNode, TObj, TTuple, TVec, TList, TDict, TDefaultDict, TRec, TOpt, TConst, key_term, slist_get)
 from pyvc.contract import Contract, Registry, Loop
 from pyvc import ops
 
 REG = Registry()
-ATTR = TRec("nodeattrs", resid=TInt, resname=TStr, restraints=TOpt(TList(TObj)))
+KEYS = ("restraints", "rw_options")
+ATTR = TRec("nodeattrs", resid=TInt, resname=TNode, restraints=TOpt(TList(TObj)), rw_options=TOpt(TList(TObj)))
 MOL = TRec("polyply.src.meta_molecule:MetaMolecule", nodes=TDict(TNode, ATTR))
-OPTION = TRec("option", resname=TStr, start=TInt, stop=TInt, parameters=TObj)     # integral bounds (the parser converts the tokens with float())
+OPTION = TRec("option", resname=TNode, start=TInt, stop=TInt, parameters=TObj)     # integral bounds (the parser converts the tokens with float())
 x_ = z3.Const("x_", TNode.sort)
 i_ = z3.Int("i_")
 
@@ -20,20 +21,27 @@ def attrs(mol, x):
 def selected(mol, option, x):
     """statement of C18: residues with the given name and an id in the stated half-open range"""
     a = attrs(mol, x)
-    return z3.And(ops.S(a.fields["resname"]) == ops.S(option.fields["resname"]),
+    return z3.And(a.fields["resname"] == option.fields["resname"],
                   ops.real(a.fields["resid"]) >= ops.real(option.fields["start"]), ops.real(a.fields["resid"]) < ops.real(option.fields["stop"]))
 
 
-def tagged_like(new_attrs, old_attrs, param):
-    """new list = old list (or [] when the key was absent) ++ [param]; resid / resname untouched"""
-    nl, ol = new_attrs.fields["restraints"], old_attrs.fields["restraints"]
+def olist_eq(a, b):
+    """optional lists of opaque objects: both absent, or both present with the same entries"""
+    return z3.And(a.none == b.none, z3.Implies(z3.Not(a.none), z3.And(a.val.n == b.val.n, z3.ForAll([i_], z3.Implies(z3.And(0 <= i_, i_ < a.val.n), a.val.comps[0][i_] == b.val.comps[0][i_])))))
+
+
+def tagged_like(new_attrs, old_attrs, param, key):
+    """new list under `key` = old list (or [] when the key was absent) ++ [param]; every other attribute untouched"""
+    nl, ol = new_attrs.fields[key], old_attrs.fields[key]
     old_n = z3.If(ol.none, 0, ol.val.n)
+    other = [k for k in KEYS if k != key]
     return z3.And(z3.Not(nl.none), nl.val.n == old_n + 1, nl.val.comps[0][old_n] == param,
                   z3.ForAll([i_], z3.Implies(z3.And(0 <= i_, i_ < old_n), nl.val.comps[0][i_] == ol.val.comps[0][i_])),
-                  new_attrs.fields["resid"] == old_attrs.fields["resid"], new_attrs.fields["resname"] == old_attrs.fields["resname"])
+                  new_attrs.fields["resid"] == old_attrs.fields["resid"], new_attrs.fields["resname"] == old_attrs.fields["resname"],
+                  *[olist_eq(new_attrs.fields[k], old_attrs.fields[k]) for k in other])
 
 
-def tag_post(mol, old_mol, option, pos=None, k=None):
+def tag_post(mol, old_mol, option, key, pos=None, k=None):
     nd, od = mol.fields["nodes"], old_mol.fields["nodes"]
     if pos is None:
         done = lambda x: z3.BoolVal(True)      # noqa: E731
@@ -41,16 +49,209 @@ def tag_post(mol, old_mol, option, pos=None, k=None):
         done = lambda x: pos(x) < k            # noqa: E731   (pos: ghost iteration position of a key)
     return z3.And(nd.dom == od.dom, z3.ForAll([x_], z3.Implies(z3.Select(od.dom, x_), z3.If(
         z3.And(done(x_), selected(old_mol, option, x_)),
-        tagged_like(attrs(mol, x_), attrs(old_mol, x_), option.fields["parameters"]),
+        tagged_like(attrs(mol, x_), attrs(old_mol, x_), option.fields["parameters"], key),
         ATTR.eq(attrs(mol, x_), attrs(old_mol, x_))))))
 
 
-TAG_NODES = REG.add(Contract(
-    "polyply.src.build_file_parser:BuildDirector._tag_nodes",
-    params=dict(molecule=MOL, keyword=TConst("restraints"), option=OPTION, molname=TStr),
-    ensures={"exactly the residues with the given name and an id in [start, stop) receive the option, once, appended; all other residues and attributes are untouched":
-             "tag_post(molecule, old(molecule), option)"},
-    loops={0: Loop({"visited residues are done, the others untouched": "tag_post(molecule, entry['molecule'], option, _pos0, k)"})},
-    spec_fns={"tag_post": tag_post, "is_int": lambda v: z3.IsInt(ops.real(v))},
-    props=("C18", "C07"),
-    note="instance keyword='restraints'; the 'rw_options' call site runs the same code with another key"))
+def _tag_contract(key):
+    return REG.add(Contract(
+        "polyply.src.build_file_parser:BuildDirector._tag_nodes",
+        params=dict(molecule=MOL, keyword=TConst(key), option=OPTION, molname=TObj), instance=key if key != "restraints" else None,
+        modifies=["molecule.nodes"],
+        ensures={"exactly the residues with the given name and an id in [start, stop) receive the option, once, appended; all other residues and attributes are untouched":
+                 f"tag_post(molecule, old(molecule), option, '{key}')"},
+        loops={0: Loop({"visited residues are done, the others untouched": f"tag_post(molecule, entry['molecule'], option, '{key}', _pos0, k)"})},
+        spec_fns={"tag_post": tag_post, "is_int": lambda v: z3.IsInt(ops.real(v))},
+        props=("C18", "C07"),
+        note=f"instance keyword='{key}' (the function is called with the two keys 'restraints' and 'rw_options'; one contract each)"))
+
+
+TAG_NODES = _tag_contract("restraints")
+TAG_NODES_RW = _tag_contract("rw_options")
+
+
+# ---- BuildDirector.finalize: which molecules a [ molecule ] block reaches ------------------------------------------------------
+MOLX = TRec("polyply.src.meta_molecule:MetaMolecule", nodes=TDict(TNode, ATTR), mol_name=TNode, templates=TObj)
+MKEY = TTuple(TNode, TInt)        # (molecule name, molecule index)
+TOPO = TRec("polyply.src.topology:Topology", volumes=TDict(TNode, TReal))
+DIRECTOR = TRec("polyply.src.build_file_parser:BuildDirector",
+                molecules=TList(MOLX), build_options=TDefaultDict(MKEY, TList(OPTION)), rw_options=TDict(MKEY, OPTION),
+                templates=TObj, topology=TOPO, resnames_to_hash=TDict(TNode, TList(TNode)))
+m_, j_ = z3.Int("m_"), z3.Int("j_")
+# ghost: CNT(m, x, j) = how many of the first j options listed for molecule m select residue x of that molecule
+CNT = z3.Function("options_selecting_before", z3.IntSort(), TNode.sort, z3.IntSort(), z3.IntSort())
+
+
+def mkey(self_, m):
+    return key_term(MKEY, (slist_get(self_.fields["molecules"], m).fields["mol_name"], m))
+
+
+def opts_of(self_, m):
+    bo = self_.fields["build_options"]
+    return bo.v.unflat([c[mkey(self_, m)] for c in bo.comps])
+
+
+def has_opts(self_, m):
+    return z3.Select(self_.fields["build_options"].dom, mkey(self_, m))
+
+
+def rw_of(self_, m):
+    ro = self_.fields["rw_options"]
+    return ro.v.unflat([c[mkey(self_, m)] for c in ro.comps])
+
+
+def has_rw(self_, m):
+    return z3.Select(self_.fields["rw_options"].dom, mkey(self_, m))
+
+
+def sel(old_self, m, x, j):
+    return selected(slist_get(old_self.fields["molecules"], m), slist_get(opts_of(old_self, m), j), x)
+
+
+def cnt_def(old_self):
+    """recursive definition of the ghost count; the step is instantiated for terms CNT(m, x, j + 1) only (no matching loop)"""
+    step = CNT(m_, x_, j_ + 1) == CNT(m_, x_, j_) + z3.If(sel(old_self, m_, x_, j_), 1, 0)
+    return z3.And(z3.ForAll([m_, x_], CNT(m_, x_, 0) == 0, patterns=[CNT(m_, x_, 0)]),
+                  z3.ForAll([m_, x_, j_], z3.Implies(j_ >= 0, step), patterns=[CNT(m_, x_, j_ + 1)]))
+
+
+def restraints_upto(new_a, old_a, old_self, m, x, upto):
+    """the restraint list of residue x: the old list followed by the parameters of the selecting options among the first `upto`, in order"""
+    nl, ol = new_a.fields["restraints"], old_a.fields["restraints"]
+    old_n = z3.If(ol.none, 0, ol.val.n)
+    opts = opts_of(old_self, m)
+    return z3.And(
+        CNT(m, x, upto) >= 0,
+        z3.If(CNT(m, x, upto) == 0, olist_eq(nl, ol), z3.And(z3.Not(nl.none), nl.val.n == old_n + CNT(m, x, upto))),
+        z3.Implies(z3.Not(nl.none), z3.ForAll([i_], z3.Implies(z3.And(0 <= i_, i_ < old_n), nl.val.comps[0][i_] == ol.val.comps[0][i_]))),
+        z3.ForAll([j_], z3.Implies(z3.And(0 <= j_, j_ < upto, sel(old_self, m, x, j_)),
+                                   z3.And(0 <= CNT(m, x, j_), CNT(m, x, j_) < CNT(m, x, upto), nl.val.comps[0][old_n + CNT(m, x, j_)] == slist_get(opts, j_).fields["parameters"]))))
+
+
+def mol_state(mol, old_self, m, upto, rw_done):
+    """molecule m after the first `upto` of its geometry options (all of them: upto=None) and, when rw_done, its rw_restriction"""
+    old_mol = slist_get(old_self.fields["molecules"], m)
+    nd, od = mol.fields["nodes"], old_mol.fields["nodes"]
+    na, oa = attrs(mol, x_), attrs(old_mol, x_)
+    n_opts = z3.If(has_opts(old_self, m), opts_of(old_self, m).n, 0) if upto is None else upto
+    rw = rw_of(old_self, m)
+    rw_sel = z3.And(rw_done, has_rw(old_self, m), selected(old_mol, rw, x_))
+    return z3.And(nd.dom == od.dom, mol.fields["mol_name"] == old_mol.fields["mol_name"],
+                  z3.ForAll([x_], z3.Implies(z3.Select(od.dom, x_), z3.And(
+                      na.fields["resid"] == oa.fields["resid"], na.fields["resname"] == oa.fields["resname"],
+                      restraints_upto(na, oa, old_self, m, x_, n_opts),
+                      z3.If(rw_sel, tagged_rw(na, oa, rw.fields["parameters"]), olist_eq(na.fields["rw_options"], oa.fields["rw_options"]))))))
+
+
+def tagged_rw(na, oa, param):
+    nl, ol = na.fields["rw_options"], oa.fields["rw_options"]
+    old_n = z3.If(ol.none, 0, ol.val.n)
+    return z3.And(z3.Not(nl.none), nl.val.n == old_n + 1, nl.val.comps[0][old_n] == param,
+                  z3.ForAll([i_], z3.Implies(z3.And(0 <= i_, i_ < old_n), nl.val.comps[0][i_] == ol.val.comps[0][i_])))
+
+
+def done_before(self_, old_self, upto):
+    """molecules before `upto` are completely tagged and carry the templates"""
+    mols, old = self_.fields["molecules"], old_self.fields["molecules"]
+    return z3.And(mols.n == old.n, z3.ForAll([m_], z3.Implies(z3.And(0 <= m_, m_ < mols.n, m_ < upto), z3.And(
+        mol_state(slist_get(mols, m_), old_self, m_, None, z3.BoolVal(True)), slist_get(mols, m_).fields["templates"] == old_self.fields["templates"]))))
+
+
+def untouched_after(self_, old_self, frm):
+    """molecules from `frm` on are as on entry"""
+    mols, old = self_.fields["molecules"], old_self.fields["molecules"]
+    return z3.And(mols.n == old.n, z3.ForAll([m_], z3.Implies(z3.And(0 <= m_, m_ < mols.n, m_ >= frm), MOLX.eq(slist_get(mols, m_), slist_get(old, m_)))))
+
+
+def tagged_all(self_, old_self, upto):
+    return z3.And(done_before(self_, old_self, upto), untouched_after(self_, old_self, upto))
+
+
+def tables_same(a, b):
+    return z3.And(*[DIRECTOR.fields[f].eq(a.fields[f], b.fields[f]) for f in ("build_options", "rw_options", "templates", "resnames_to_hash")])
+
+
+REG.add(Contract("polyply.src.build_file_parser:BuildDirector.super.finalize", params=dict(self=DIRECTOR), trusted=True,
+                 note="vermouth SectionLineParser.finalize: closes the last section (finalize_section: template bookkeeping and volumes only)"))
+
+FINALIZE = REG.add(Contract(
+    "polyply.src.build_file_parser:BuildDirector.finalize", params=dict(self=DIRECTOR, lineno=TInt),
+    axioms={"definition of the ghost count options_selecting_before": "cnt_def(self)"},
+    ensures={"a molecule receives exactly the options listed under its (name, index), in order, on the residues they select; every other molecule, "
+             "residue and attribute is untouched; every molecule gets the template table":
+             "tagged_all(self, old(self), len(self.molecules))"},
+    loops={0: Loop({"molecules so far": "done_before(self, old(self), k)", "molecules to come": "untouched_after(self, old(self), k)",
+                    "the tables are only read": "tables_same(self, old(self))"}),
+           1: Loop({"position": "0 <= mol_idx and mol_idx < len(self.molecules) and has_opts(old(self), mol_idx) and same_list(_seq1, opts_of(old(self), mol_idx))",
+                    "this molecule so far": "mol_state(self.molecules[mol_idx], old(self), mol_idx, j, False)",
+                    "its templates": "self.molecules[mol_idx].templates == old(self).molecules[mol_idx].templates",
+                    "molecules so far": "done_before(self, old(self), mol_idx)", "molecules to come": "untouched_after(self, old(self), mol_idx + 1)",
+                    "the tables are only read": "tables_same(self, old(self))"}, index="j"),
+           2: Loop({"molecules": "tagged_all(self, old(self), len(self.molecules))"}),
+           3: Loop({"molecules": "tagged_all(self, old(self), len(self.molecules))", "the name has a volume": "resname in self.topology.volumes"}, index="j")},
+    spec_fns=dict(tagged_all=tagged_all, done_before=done_before, untouched_after=untouched_after, mol_state=mol_state, tables_same=tables_same, cnt_def=cnt_def,
+                  has_opts=has_opts, opts_of=opts_of, same_list=lambda a, b: TList(OPTION).eq(a, b)),
+    deep_wf=True, props=("C18",),
+    note="_tag_nodes is used through its two proved contracts; vermouth's SectionLineParser.finalize is assumed to leave the molecules alone"))
+
+CONTRACTS = [TAG_NODES, TAG_NODES_RW, FINALIZE]
+
+
+# ---- [ molecule ] sub-directives: the option table gets the directive under exactly the (name, index) keys of the current block ----
+GEOM = OPTION
+PARSER = TRec("polyply.src.build_file_parser:BuildDirector",
+              build_options=TDefaultDict(MKEY, TList(OPTION)), rw_options=TDict(MKEY, OPTION), current_molname=TNode, current_molidxs=TList(TInt))
+kk_ = z3.Const("kk_", MKEY.sorts()[0]) if len(MKEY.sorts()) == 1 else None
+
+
+def _key(name, idx):
+    return key_term(MKEY, (name, idx))
+
+
+def in_block(self_, i):
+    """index i is one of the indices of the current [ molecule ] block"""
+    L = self_.fields["current_molidxs"]
+    return z3.Exists([j_], z3.And(0 <= j_, j_ < L.n, L.comps[0][j_] == i))
+
+
+def distinct_idxs(self_):
+    L = self_.fields["current_molidxs"]
+    return z3.ForAll([i_, j_], z3.Implies(z3.And(0 <= i_, i_ < j_, j_ < L.n), L.comps[0][i_] != L.comps[0][j_]))
+
+
+def appended_for_block(self_, old_self, new_def, upto):
+    """the keys (current name, idx) for the first `upto` indices of the block got `new_def` appended; every other entry is untouched"""
+    bo, ob = self_.fields["build_options"], old_self.fields["build_options"]
+    L = old_self.fields["current_molidxs"]
+    name = old_self.fields["current_molname"]
+    n_, i2 = z3.Const("n_", TNode.sort), z3.Int("i2_")
+    key = _key(n_, i2)
+    new_l = bo.v.unflat([c[key] for c in bo.comps])
+    old_l = ob.v.unflat([c[key] for c in ob.comps])
+    hit = z3.And(n_ == name, z3.Exists([j_], z3.And(0 <= j_, j_ < upto, L.comps[0][j_] == i2)))
+    return z3.ForAll([n_, i2], z3.If(hit,
+                                     z3.And(new_l.n == old_l.n + 1, OPTION.eq(slist_get(new_l, old_l.n), new_def),
+                                            z3.ForAll([i_], z3.Implies(z3.And(0 <= i_, i_ < old_l.n), OPTION.eq(slist_get(new_l, i_), slist_get(old_l, i_))))),
+                                     TList(OPTION).eq(new_l, old_l)))
+
+
+REG.add(Contract("polyply.src.build_file_parser:BuildDirector._base_parser_geometry", params=dict(tokens=TObj, _type=TObj), result=OPTION, trusted=True,
+                 note="token parsing of one geometry line (strings to numbers): assumed to return the definition; bounded unit c18-selections covers it"))
+LINE = TRec("Line", text=TObj)        # the text line, opaque: only `line.split()` is applied to it
+REG.add(Contract("Line:split", params=dict(self=LINE), result=TObj, trusted=True, note="str.split: the token list, opaque here"))
+
+PARSE_GEOMETRY = REG.add(Contract(
+    "polyply.src.build_file_parser:BuildDirector._parse_geometry", params=dict(self=PARSER, line=LINE, lineno=TInt, geom_type=TObj),
+    requires={"the indices of the current block are distinct (np.arange)": "distinct_idxs(self)"},
+    modifies=["self.build_options"],
+    ensures={"the definition is appended under exactly the keys (current molecule name, index in the block), once each; all other entries are untouched":
+             "appended_for_block(self, old(self), geometry_def, len(self.current_molidxs))"},
+    exposes={"geometry_def": OPTION},
+    loops={0: Loop({"keys so far": "appended_for_block(self, old(self), geometry_def, k)",
+                    "the block is only read": "same_block(self, old(self))"})},
+    spec_fns=dict(distinct_idxs=distinct_idxs, appended_for_block=appended_for_block,
+                  same_block=lambda a, b: z3.And(a.fields["current_molname"] == b.fields["current_molname"],
+                                                 TList(TInt).eq(a.fields["current_molidxs"], b.fields["current_molidxs"]))),
+    deep_wf=True, props=("C18",),
+    note="instance for all three geometry directives (the decorators only register the section names)"))
+CONTRACTS.append(PARSE_GEOMETRY)
